@@ -48,7 +48,7 @@ leaves in the thorough tier (`numeric_hess_ok`); trees containing them for n <= 
 """
 import os, math, copy, random
 from fractions import Fraction
-from .. import common as C, gen, build
+from .. import common as C, gen, build, gen_fnx
 from ..check import Prop, Op
 from ..common import F, fs, dy, pf
 
@@ -575,15 +575,19 @@ def build_raw(case):
   elif w == 'mf_idevice':
     inner = build.build_leaf(case['dev'], 'i')
     d = dk.MFDeviceSet(inner, list(case['flows']))
+  elif w == 'fnx':
+    d = gen_fnx.build_adevice(case['dev'], 'a')
   else:
     raise ValueError('unknown raw configuration ' + w)
-  flows = [(name, n_.array(build.jf(v), dtype=float).reshape(d.shape)) for name, v in case['flows_at']]
+  flows = [(it[0], n_.array(build.jf(it[1]), dtype=float).reshape(d.shape)) for it in case['flows_at']]
   return d, flows
 
 
 # ---------------------------------------------------------------- the property, observed
-def usable(dev, x_shaped, price, want_hess=True, flat_and_shaped=True):
-  """The property itself on one device at one in-bounds flow: list of (kind, what, exc-or-None, message)."""
+def usable(dev, x_shaped, price, want_hess=True, flat_and_shaped=True, wanted=None, hess_flat=True):
+  """The property itself on one device at one in-bounds flow: list of (kind, what, exc-or-None, message).
+  `wanted`: the operations demanded (default all); `hess_flat=False`: the Hessian only for the device-shaped flow
+  (one numdifftools call on a long horizon)."""
   n_ = np()
   n = len(dev); R = dev.shape[0]
   out = []
@@ -592,8 +596,10 @@ def usable(dev, x_shaped, price, want_hess=True, flat_and_shaped=True):
     variants.append(('flat', x_shaped.reshape(-1)))
   for vname, x in variants:
     calls = [('cost', lambda: dev.cost(x, price)), ('deriv', lambda: dev.deriv(x, price))]
-    if want_hess:
+    if want_hess and (hess_flat or vname == 'shaped'):
       calls.append(('hess', lambda: dev.hess(x, price)))
+    if wanted is not None:
+      calls = [c for c in calls if c[0] in wanted]
     for what, f in calls:
       try:
         v = n_.array(f(), dtype=float)
@@ -959,21 +965,106 @@ def accept_case(rng, tier, n, cls=None, opt=None):
   return {'kind': 'accept', 'dev': d, '_why': why}
 
 
-def raw_clean_case(rng, tier, n):
-  """oracle-only configurations that are expected to be usable."""
-  w = rng.choice(['window', 'window', 'len0'])
-  if w == 'len0':
-    return {'kind': 'raw', 'what': 'len0', 'n': 0, 'cls': rng.choice(['Device', 'IDevice', 'IDevice2', 'CDevice', 'PVDevice', 'SDevice', 'GDevice'])}
-  lb, hb = gen.gen_bounds(rng, n, sign='+')
-  if sum(hb, F(0)) == 0:
-    hb[0] = lb[0] + 1
+def window_case(rng, tier, n, sign=None):
+  """WindowDevice as a consumer ('+'), a producer ('-': all flows <= 0) or two-way (None); every flow has a non-zero
+  TOTAL (a zero total is the listed corner `window_zero_sum_flow`: np.average cannot normalise its weights)."""
+  lb, hb = gen.gen_bounds(rng, n, sign=sign)
+  if all(x == 0 for x in lb) and all(x == 0 for x in hb):
+    if sign == '-': lb[0] = F(-1)
+    else: hb[0] = F(1)
   flows = []
   for mode in ('upper', 'interior', 'mixed', 'lower'):
     s = gen.gen_flow(rng, lb, hb, mode)
-    if sum(s, F(0)) != 0:                       # a zero-sum flow is the corner `window_zero_sum_flow`
+    if sum(s, F(0)) != 0:
       flows.append((mode, [L(s)]))
   return {'kind': 'raw', 'what': 'window', 'cls': 'WindowDevice', 'n': n, 'lb': L(lb), 'hb': L(hb), 'w': fs(dy(rng, 0, n)), 'c': fs(dy(rng, 0, 2)),
-          'flows_at': flows, 'p': gen.gen_price(rng, n)}
+          'flows_at': flows, 'p': gen.gen_price(rng, n), '_sign': {'+': 'consumer', '-': 'producer', None: 'two-way'}[sign]}
+
+
+def raw_clean_case(rng, tier, n):
+  """oracle-only configurations that are expected to be usable."""
+  w = rng.choice(['window', 'window', 'fnx', 'fnx', 'len0'])
+  if w == 'len0':
+    return {'kind': 'raw', 'what': 'len0', 'n': 0, 'cls': rng.choice(['Device', 'IDevice', 'IDevice2', 'CDevice', 'PVDevice', 'SDevice', 'GDevice'])}
+  if w == 'fnx':
+    return fnx_case(rng, tier, min(n, 6), rng.choice(FNX))
+  return window_case(rng, tier, n, rng.choice(['+', '-', None]))
+
+
+# preference functions outside the Lean `Fn` embedding (vk/gen_fnx.py), oracle only.  What "usable" means is read off
+# the source's own domain, nothing more is demanded:
+#   entropy  InformationEntropy takes |r| and FILTERS zero entries before the log: cost, deriv, hess finite at every flow
+#            of any sign, with exact zeros in some or all slots;
+#   tvar     TemporalVariance normalises by the total flow (np.average weights): cost finite whenever the total is
+#            non-zero (zero entries allowed); deriv / hess only where every s_i > 1/4 and total > 2 (1 + max s_i), because
+#            numdifftools probes single entries with steps up to about 1 + |s_i| and may hit a zero total (the listed C14 finding);
+#   cobb     CobbDouglas takes r ** alpha with fractional alpha: cost finite for r >= 0 (0 ** alpha = 0); deriv / hess
+#            only for strictly positive flows (s_i > 1/4): at 0 the slope is infinite and the probes go negative;
+#   poly1d   Poly1D is a polynomial: everything, everywhere.
+FNX = ('entropy', 'tvar', 'cobb', 'poly1d')
+QUARTER = Fraction(1, 4)
+
+
+def fnx_demand(fk, s):
+  """the operations the source's own domain supports at flow `s` (Fractions); None: outside the domain altogether."""
+  tot = sum(s, F(0))
+  if fk in ('entropy', 'poly1d'):
+    return ['cost', 'deriv', 'hess']
+  if fk == 'tvar':
+    if tot == 0:
+      return None
+    # numdifftools probes one coordinate with steps up to about 1 + |s_i| (observed: [0.5, 0.5] is probed at [-0.5, 0.5]);
+    # deriv / hess are demanded only where no such probe can cancel the total
+    far = all(x > QUARTER for x in s) and tot > 2 * (1 + max(s))
+    return ['cost', 'deriv', 'hess'] if far else ['cost']
+  if fk == 'cobb':
+    if any(x < 0 for x in s):
+      return None
+    return ['cost', 'deriv', 'hess'] if all(x > QUARTER for x in s) else ['cost']
+  raise ValueError(fk)
+
+
+def fnx_case(rng, tier, n, fk):
+  sign = '+' if fk in ('tvar', 'cobb') else rng.choice(['+', '+', '-', None])
+  lb, hb = gen.gen_bounds(rng, n, sign=sign)
+  if sign == '+':
+    for k in range(n):                      # boxes that allow exact zeros in some slots
+      if rng.random() < 0.5:
+        lb[k] = F(0)
+    if all(x == 0 for x in hb):
+      hb[0] = F(2)
+  fx = {'entropy': lambda: {'k': 'entropy', 'c': fs(dy(rng, QUARTER, 2))}, 'tvar': lambda: {'k': 'tvar', 'c': fs(dy(rng, QUARTER, 2))},
+        'cobb': lambda: {'k': 'cobb', 'a': L([dy(rng, QUARTER, 3) for _ in range(n)]), 'c': fs(dy(rng, QUARTER, 2))},
+        'poly1d': lambda: {'k': 'poly1d', 'cs': gen_fnx.gen_poly_cs(rng)}}[fk]()
+  if rng.random() < 0.3:
+    fx = {'k': 'sum', 'fs': [fx, {'k': 'poly1d', 'cs': gen_fnx.gen_poly_cs(rng)}]}
+  d = gen_fnx.fnx_case_dev(rng, n, lb, hb, allow_numeric=False)
+  d['prm']['fx'] = fx
+  flows = []
+  cand = [(m, gen.gen_flow(rng, lb, hb, m)) for m in ('lower', 'upper', 'interior', 'mixed')]
+  z = gen.gen_flow(rng, lb, hb, 'interior')       # exact zeros wherever the box allows, the rest inside
+  z = [F(0) if a <= 0 <= b and rng.random() < 0.7 else v for v, a, b in zip(z, lb, hb)]
+  cand.append(('zeros-where-allowed', z))
+  for name, sflow in cand:
+    dem = fnx_demand(fk, sflow)
+    if dem:
+      flows.append((name, [L(sflow)], dem))
+  return {'kind': 'raw', 'what': 'fnx', 'cls': 'ADevice', 'fk': fk, 'n': n, 'dev': d, 'flows_at': flows, 'p': gen.gen_price(rng, n)}
+
+
+LONG_NS = {'quick': {'SDevice': [7, 25]}, 'thorough': {}}       # storage nd.Hessian: n = 25 0.9 s, n = 48 4.4 s; TDevice n = 48 0.15 s
+
+
+def long_cases(rng, tier):
+  """one leaf per class at horizons beyond the usual ones (7, 25, 48): every operation, and ONE Hessian call
+  (device-shaped flow) whose shape (n, n) and finiteness are checked — also for the numerically differentiated classes."""
+  out = []
+  for cls in LEAF_CLASSES:
+    for n in LONG_NS[tier].get(cls, [7, 25, 48]):
+      c = leaf_case(rng, tier, n, cls)
+      c['_long'] = True
+      out.append(c)
+  return out
 
 
 def reject_cases(rng, tier):
@@ -1061,8 +1152,12 @@ class C10(Prop):
                  'T2 compares shapes and per-entry definedness (finite vs undefined), never values',
                  'powDef (positive base, or zero base with non-negative exponent) is taken as the condition under which Python float ** is finite and real',
                  'floating-point overflow for very large parameters is outside the model (theorems are over the reals)',
-                 'SDevice / TDevice Hessians (numdifftools) are evaluated for n <= 6, and n = 24 on leaves in the thorough tier; never for n = 31',
-                 'constraint values are required to have size 1 (SDevice returns (1,) arrays for device-shaped flows), cost to be 0-d']
+                 'SDevice / TDevice Hessians (numdifftools) are evaluated for n <= 6, n = 24 on leaves in the thorough tier, and on the long-horizon leaves; never for n = 31',
+                 'constraint values are required to have size 1 (SDevice returns (1,) arrays for device-shaped flows), cost to be 0-d',
+                 'one leaf per class per run at n = 7, 25, 48 (SDevice: 7, 25 in the quick tier) with one (n, n)-and-finite Hessian call',
+                 'InformationEntropy / TemporalVariance / CobbDouglas / Poly1D under an ADevice are oracle-only and demanded only on the domain their source supports (see FNX)',
+                 'C10 has no bridge lemmas: an UNTRANSLATABLE vector / set unit reported by the translators is only logged (not audited here); '
+                 'the scalar kernels are tied through Gen.*_defined, everything else through T2 and the oracle']
 
   def __init__(self):
     self._hist = {}
@@ -1080,6 +1175,14 @@ class C10(Prop):
       if cls != 'ADevice':
         for opt in accept_options(cls):
           out.append(accept_case(rng, tier, rng.choice(ns), cls, opt))
+    # … WindowDevice as consumer, producer and two-way; the numdifftools-based functions and Poly1D under an ADevice
+    for sign in ('+', '-', None):
+      out.append(window_case(rng, tier, rng.choice(ns), sign))
+    for fk in FNX:
+      for _ in range(2):
+        out.append(fnx_case(rng, tier, rng.choice([x for x in ns if 2 <= x <= 6]), fk))
+    # … one leaf per class on long horizons (7, 25, 48)
+    out += long_cases(rng, tier)
     # … every form of the SDevice rate clip (both, discharge only, charge only, unequal), float- and integer-typed
     for rc in (['1', '1'], ['1', None], [None, '2'], ['3/2', '1']):
       c = leaf_case(rng, tier, rng.choice([x for x in ns if x <= 6]), 'SDevice'); c['dev']['prm']['rate_clip'] = list(rc); out.append(c)
@@ -1132,6 +1235,12 @@ class C10(Prop):
       bump('corner', c['corner'])
     if c.get('reject'):
       bump('reject_probe', c['reject'])
+    if c.get('_long'):
+      bump('long_horizon', '%s:%d' % (c['dev']['cls'], c['dev']['n']))
+    if c.get('fk'):
+      bump('fnx', c['fk'])
+    if c.get('_sign'):
+      bump('window', c['_sign'])
     if c['kind'] == 'accept':
       bump('accept', c['_why'].split('=')[0])
     if '_shape' in c:
@@ -1225,7 +1334,9 @@ class C10(Prop):
       x = flow_of(case).reshape(dev.shape)
       pr = price_of(case)
       typed = 'INTEGER-typed bounds/parameters (%s) and flow (dtype %s) ' % (d['_py'], x.dtype) if case.get('_int') else ''
-      for kind, what, exc, msg in usable(dev, x, pr, want_hess=(d['cls'] not in NUMERIC_HESS or numeric_hess_ok(case, d['n']))):
+      numeric = d['cls'] in NUMERIC_HESS
+      for kind, what, exc, msg in usable(dev, x, pr, want_hess=(not numeric or numeric_hess_ok(case, d['n']) or bool(case.get('_long'))),
+                                         hess_flat=not (numeric and d['n'] > 6)):
         fails.append(failure(d['cls'], kind, what, exc, leaf_corner(case, what), msg,
                              '%sn=%d prm=%s lb=%s hb=%s cbs=%s s=%s p=%s' % (typed, d['n'], d['prm'], d['lb'], d['hb'], d.get('cbs'), case['s'], case['p']),
                              dtype='int' if case.get('_int') else None))
@@ -1255,6 +1366,20 @@ class C10(Prop):
         return []                                     # rejected (today: by numpy, "cannot call vectorize on size 0 inputs")
       for kind, what, exc, msg in usable(dev, n_.zeros(dev.shape), 0.25):     # accepted: then it has to be usable
         fails.append(failure(case['cls'], kind, what, exc, None, msg, 'a device of length 0 is accepted and not usable'))
+      return fails
+    if case['what'] == 'fnx':
+      try:
+        dev, flows = build_raw(case)
+      except Exception as e:
+        return [failure('ADevice', 'raises', 'constructor', type(e).__name__, None, 'constructor raises %s: %s' % (type(e).__name__, str(e)[:150]),
+                        'f=%s n=%d' % (case['fk'], case['n']))]
+      pr = build.price(case['p'])
+      for (name, x), it in zip(flows, case['flows_at']):
+        for kind, what, exc, msg in usable(dev, x, pr, wanted=set(it[2]) | {'constraints'}):
+          fails.append(failure('ADevice', kind, what, exc, None, msg, 'f=%s (%s) n=%d lb=%s hb=%s at the %s flow %s (demanded by the source\'s own domain: %s)' % (
+            case['fk'], case['dev']['prm']['fx'], case['n'], case['dev']['lb'], case['dev']['hb'], name, x.tolist(), it[2])))
+      for f in fails:
+        f['key']['f'] = case['fk']
       return fails
     if case.get('reject'):
       try:
